@@ -3,6 +3,7 @@ import json
 import os
 
 from lib import vcheck
+from checks.pipeline import pipeline
 
 PROP = "C10"
 MODE = "c10"
@@ -26,6 +27,10 @@ def run(ctx, replay, mode=MODE):
         if not g["violated"]:
             raise vcheck.Infra("vacuity guard %s: %s" % (b, g["out"][-1500:]))
     ctx.harness(binary, cases=cases, n=(400 if ctx.tier == "thorough" else 60), extra=mode)
+    if mode == MODE:
+        # whole runs against Pprof.tla: every report's numbers are those of the pristine merged profile under the
+        # options in effect (absolute oracle, complementing the fresh-session comparison above)
+        pipeline(ctx, kinds=("assign", "report", "noop", "end"))
     return ctx.finish(
         "model_checking",
         assumptions=["the reference for a command is the same line typed into a fresh in-process session after exactly the assignments the specification says are in effect; the real code supplies the report function F",
